@@ -1,6 +1,7 @@
 package main
 
 import (
+	"fmt"
 	"go/ast"
 	"go/constant"
 	"go/types"
@@ -31,6 +32,8 @@ func runC10(p *Program, r *Report) {
 	ruleTransformOnce(p, r, "R10.8", []string{"pseudonymization.(*PostgreSQLTokenizeQuery).replaceValuesWithTokenizedData", "pseudonymization.(*MySQLTokenizeQuery).replaceValuesWithTokenizedData"})
 	r.Rule("R10.7", "E1", 2, "placeholder positions in the tokenizing Bind handlers are range-checked on both sides (0 <= index < len(values)) where they are recorded")
 	ruleBindIndex(p, r, "R10.7", []string{"pseudonymization.(*PostgreSQLTokenizeQuery).OnBind", "pseudonymization.(*MySQLTokenizeQuery).OnBind"})
+	r.Rule("R10.9", "E2", 4, "read-modify-write in one transaction: every Bucket.Put of the BoltDB token store writes a value that does not derive from a record read in another transaction closure (a stale write-back undoes a disable or removal committed in between)")
+	ruleR109(p, r)
 }
 
 func intWidth(t types.Type) (bits int, signed bool, ok bool) {
@@ -1031,4 +1034,116 @@ func init() {
 	mut("C10", "stored type no longer checked", "pseudonymization/tokenizer.go", "	if tokenValue.Type != dataType {\n		return nil, ErrDataTypeMismatch\n	}\n", "", "R10.6", "stored type")
 	mut("C10", "mysql: repeated placeholder tokenized twice (original defect)", "pseudonymization/mysql_tokenize_query.go", "		if _, done := processed[valueIndex]; done {\n			continue\n		}\n", "", "R10.8", "transformed once")
 	mut("C10", "pg tokenizer OnBind: lower bound dropped (original defect)", "pseudonymization/postgresql_tokenize_query.go", "		if index < 0 || index >= len(values) {", "		if index >= len(values) {", "R10.7", "OnBind")
+}
+
+// ---- R10.9: a record is read, changed and written back inside one bolt write transaction.
+// Every Bucket.Put in the BoltDB token store writes a value that does not derive from a read (Bucket.Get, a cursor)
+// made in another transaction closure: such a value is stale by the time it is written and silently undoes whatever
+// was committed in between (a token disabled or removed by maintenance comes back).
+func ruleR109(p *Program, r *Report) {
+	const file = "pseudonymization/storage/boltdb.go"
+	isBolt := func(c *ssa.Call, names ...string) bool {
+		co := calleeOfCommon(c.Common())
+		if co == nil || co.Pkg() == nil || !strings.HasSuffix(co.Pkg().Path(), "bbolt") {
+			return false
+		}
+		for _, n := range names {
+			if co.Name() == n {
+				return true
+			}
+		}
+		return false
+	}
+	// txRead: v derives, inside its own function, from a bolt read
+	txRead := func(v ssa.Value) bool {
+		for x := range backClosure(v) {
+			if c, ok := x.(*ssa.Call); ok && isBolt(c, "Get", "First", "Next", "Last", "Prev", "Seek") {
+				return true
+			}
+		}
+		return false
+	}
+	n := 0
+	for _, fn := range p.srcFns {
+		if p.FileOf(fn.Pos()) != file {
+			continue
+		}
+		for _, b := range fn.Blocks {
+			for _, in := range b.Instrs {
+				c, ok := in.(*ssa.Call)
+				if !ok || !isBolt(c, "Put") || len(c.Call.Args) < 3 {
+					continue
+				}
+				n++
+				bad := ""
+				for x := range backClosure(c.Call.Args[2]) {
+					fv, ok := x.(*ssa.FreeVar)
+					if !ok || fn.Parent() == nil {
+						continue
+					}
+					cell := bindingOf(fn, fv)
+					al, isCell := cell.(*ssa.Alloc)
+					if !isCell {
+						continue
+					}
+					// every other closure of the parent that captures the same cell and stores into it
+					for _, pb := range fn.Parent().Blocks {
+						for _, pin := range pb.Instrs {
+							mc, ok := pin.(*ssa.MakeClosure)
+							if !ok {
+								continue
+							}
+							g := mc.Fn.(*ssa.Function)
+							if g == fn {
+								continue
+							}
+							for j, bnd := range mc.Bindings {
+								if bnd != ssa.Value(al) || j >= len(g.FreeVars) {
+									continue
+								}
+								for _, gb := range g.Blocks {
+									for _, gin := range gb.Instrs {
+										if st, ok := gin.(*ssa.Store); ok && st.Addr == ssa.Value(g.FreeVars[j]) && txRead(st.Val) {
+											bad = "the value written derives from `" + fv.Name() + "`, which " + fnName(g) + " (another transaction) computed from a record it read at " + p.Pos(st.Pos()) + ": anything committed in between (disable, remove) is overwritten with the older state"
+										}
+									}
+								}
+							}
+						}
+					}
+				}
+				r.Check(bad == "", "R10.9", fnName(fn), "Put writes a record read in the same transaction", p.Pos(c.Pos()), "the written value derives from the method's arguments and from reads of this transaction only", bad)
+			}
+		}
+	}
+	if n < 4 {
+		r.Bad("R10.9", file, "Put call sites", "-", fmt.Sprintf("%d Bucket.Put call sites found, 4 confirmed by reading (Save, Get, visitBucket x2)", n))
+	}
+}
+
+// bindingOf: the value the parent binds to free variable fv when it creates closure fn.
+func bindingOf(fn *ssa.Function, fv *ssa.FreeVar) ssa.Value {
+	idx := -1
+	for i, f := range fn.FreeVars {
+		if f == fv {
+			idx = i
+		}
+	}
+	if idx < 0 || fn.Parent() == nil {
+		return nil
+	}
+	for _, b := range fn.Parent().Blocks {
+		for _, in := range b.Instrs {
+			if mc, ok := in.(*ssa.MakeClosure); ok && mc.Fn == ssa.Value(fn) && idx < len(mc.Bindings) {
+				return mc.Bindings[idx]
+			}
+		}
+	}
+	return nil
+}
+
+func init() {
+	mut("C10", "bolt Get writes back the record it read in the earlier read-only transaction (original defect)", "pseudonymization/storage/boltdb.go",
+		"\tvar accessTimeUpdate bool\n\tvar now time.Time\n\tctx := common.AggregateTokenContextToBytes(context)\n\terr := b.db.View(func(tx *bolt.Tx) error {\n\t\tbucket := tx.Bucket(tokenBucket)\n\t\tif bucket == nil {\n\t\t\treturn common.ErrTokenNotFound\n\t\t}\n\t\tctxBucket := bucket.Bucket(ctx)\n\t\tif ctxBucket == nil {\n\t\t\treturn common.ErrTokenNotFound\n\t\t}\n\t\tencoded := ctxBucket.Get(id)\n\t\tif encoded == nil {\n\t\t\treturn common.ErrTokenNotFound\n\t\t}\n\t\tdata, metadata, err := common.ExtractMetadata(encoded)\n\t\tif err != nil {\n\t\t\treturn err\n\t\t}\n\t\t// If the token is disabled, pretend that it's not there. (Don't update last access time either.)\n\t\tif metadata.Disabled {\n\t\t\treturn common.ErrTokenDisabled\n\t\t}\n\t\t// Keep last access time updated, but don't update it more often than specified granularity.\n\t\tnow = time.Now().UTC()\n\t\taccessTimeUpdate = metadata.AccessedBefore(now, b.accessGranularity)\n\t\tvalue = data\n\t\treturn nil\n\t})\n\tif err != nil {\n\t\treturn nil, err\n\t}\n\t// If metadata update is needed, open a separate writeable transaction to perform it.\n\tif accessTimeUpdate {\n\t\terr := b.db.Update(func(tx *bolt.Tx) error {\n\t\t\tbucket := tx.Bucket(tokenBucket)\n\t\t\tif bucket == nil {\n\t\t\t\treturn common.ErrTokenNotFound\n\t\t\t}\n\t\t\tctxBucket := bucket.Bucket(ctx)\n\t\t\tif ctxBucket == nil {\n\t\t\t\treturn common.ErrTokenNotFound\n\t\t\t}\n\t\t\t// The token may have been disabled or removed since it was read: look again,\n\t\t\t// so that the access time update never brings an older state of the entry back.\n\t\t\tencoded := ctxBucket.Get(id)\n\t\t\tif encoded == nil {\n\t\t\t\treturn common.ErrTokenNotFound\n\t\t\t}\n\t\t\tdata, metadata, err := common.ExtractMetadata(encoded)\n\t\t\tif err != nil {\n\t\t\t\treturn err\n\t\t\t}\n\t\t\tif metadata.Disabled {\n\t\t\t\treturn common.ErrTokenDisabled\n\t\t\t}\n\t\t\tmetadata.Accessed = now\n\t\t\treturn ctxBucket.Put(id, common.EmbedMetadata(data, metadata))\n",
+		"\tvar updatedMetadata []byte\n\tctx := common.AggregateTokenContextToBytes(context)\n\terr := b.db.View(func(tx *bolt.Tx) error {\n\t\tbucket := tx.Bucket(tokenBucket)\n\t\tif bucket == nil {\n\t\t\treturn common.ErrTokenNotFound\n\t\t}\n\t\tctxBucket := bucket.Bucket(ctx)\n\t\tif ctxBucket == nil {\n\t\t\treturn common.ErrTokenNotFound\n\t\t}\n\t\tencoded := ctxBucket.Get(id)\n\t\tif encoded == nil {\n\t\t\treturn common.ErrTokenNotFound\n\t\t}\n\t\tdata, metadata, err := common.ExtractMetadata(encoded)\n\t\tif err != nil {\n\t\t\treturn err\n\t\t}\n\t\t// If the token is disabled, pretend that it's not there. (Don't update last access time either.)\n\t\tif metadata.Disabled {\n\t\t\treturn common.ErrTokenDisabled\n\t\t}\n\t\t// Keep last access time updated, but don't update it more often than specified granularity.\n\t\tnow := time.Now().UTC()\n\t\tif metadata.AccessedBefore(now, b.accessGranularity) {\n\t\t\tmetadata.Accessed = now\n\t\t\tupdatedMetadata = common.EmbedMetadata(data, metadata)\n\t\t}\n\t\tvalue = data\n\t\treturn nil\n\t})\n\tif err != nil {\n\t\treturn nil, err\n\t}\n\t// If metadata update is needed, open a separate writeable transaction to perform it.\n\tif updatedMetadata != nil {\n\t\terr := b.db.Update(func(tx *bolt.Tx) error {\n\t\t\tbucket := tx.Bucket(tokenBucket)\n\t\t\tif bucket == nil {\n\t\t\t\treturn common.ErrTokenNotFound\n\t\t\t}\n\t\t\tctxBucket := bucket.Bucket(ctx)\n\t\t\tif ctxBucket == nil {\n\t\t\t\treturn common.ErrTokenNotFound\n\t\t\t}\n\t\t\treturn ctxBucket.Put(id, updatedMetadata)\n", "R10.9", "Get$")
 }
